@@ -215,7 +215,32 @@ def run_impl(case):
 # prediction / clustering tables, the same inputs twice), thresholds incl. the boundaries 0.0 and
 # 1.0, threshold passed explicitly / read from the clustering metadata / passed explicitly while
 # the metadata carries another value.  Every call has its own expected tables.
+def gen_shared_clustering_history(rng, backend):
+    """ONE df_clustered object that carries threshold metadata, used by every call of the history:
+    explicit X (different from the clustering threshold) then implicit, or implicit - explicit -
+    implicit.  An implicit call must use the threshold the clustering was made at."""
+    base = gen_case(rng, backend)
+    top = max(p for _, _, p in base["edges"])
+    meta = rng.choice([0, top, rng.randint(0, top), rng.randint(0, top)])
+    others = [t for t in {0, top, rng.randint(0, top), rng.randint(0, top), max(0, top - 1)} if t != meta]
+    if not others:
+        return gen_shared_clustering_history(rng, backend)
+    source = rng.choice(["registered", "real"]) if base["link"] != "link_and_dedupe" else "registered"
+    clusters = clustering(base["nodes"], base["edges"], meta) if source == "real" or rng.random() < 0.6 else base["clusters"]
+    order = rng.choice([["explicit_over_metadata", "metadata"], ["explicit_over_metadata", "metadata"],
+                        ["metadata", "explicit_over_metadata", "metadata"],
+                        ["explicit_over_metadata", "explicit_over_metadata", "metadata"]])
+    calls = []
+    for k, how in enumerate(order):
+        calls.append({"edges": base["edges"], "thr": meta if how == "metadata" else rng.choice(others), "clusters": clusters,
+                      "kinds": base["kinds"], "multigraph": base["multigraph"], "kind": "first" if k == 0 else "same_clustering_object",
+                      "cluster_source": source, "pass": how, "meta_thr": meta, "reuse_dc": None if k == 0 else 0})
+    return {"backend": backend, "link": base["link"], "names": base["names"], "nodes": base["nodes"], "calls": calls}
+
+
 def gen_history(rng, backend):
+    if rng.random() < 0.35:
+        return gen_shared_clustering_history(rng, backend)
     base = gen_case(rng, backend)
     fixed = (base["link"], base["names"], base["nodes"])
     calls = []
@@ -273,7 +298,7 @@ def run_history(hist):
         pd.DataFrame({"unique_id": [u for _, u in nodes], "source_dataset": [ds for ds, _ in nodes]})
     lk = Linker(df, s, api)
     su.quiet()
-    out, tables = [], {}
+    out, tables, dcs = [], {}, {}
     for k, c in enumerate(hist["calls"]):
         try:
             e = c["edges"]
@@ -286,7 +311,9 @@ def run_history(hist):
                 pred["match_probability"] = [p / DEN for _, _, p in e]
                 tables[key] = lk.table_management.register_table(pd.DataFrame(pred), f"__splink__df_predict_verif_{k}", overwrite=True)
             dp = tables[key]
-            if c["cluster_source"] == "real":
+            if c.get("reuse_dc") is not None and c["reuse_dc"] in dcs:
+                dc = dcs[c["reuse_dc"]]                    # the SAME df_clustered object as an earlier call
+            elif c["cluster_source"] == "real":
                 dc = lk.clustering.cluster_pairwise_predictions_at_threshold(dp, threshold_match_probability=c["meta_thr"] / DEN)
             else:
                 cl = {"cluster_id": [comp_id(hist, x) for x in c["clusters"]], "unique_id": [u for _, u in nodes]}
@@ -295,6 +322,7 @@ def run_history(hist):
                 dc = lk.table_management.register_table(pd.DataFrame(cl), f"__splink__df_clustered_verif_{k}", overwrite=True)
                 if c["meta_thr"] is not None:
                     dc.metadata["threshold_match_probability"] = c["meta_thr"] / DEN
+            dcs[k] = dc
             if c["pass"] == "metadata":
                 gm = lk.clustering.compute_graph_metrics(dp, dc)
             else:
@@ -328,7 +356,13 @@ def minimise_history(hist, k):
     """Smallest sub-history (call k alone, or one earlier call + call k) that still fails."""
     cands = [[k]] + [[j, k] for j in range(k)] + [list(range(k + 1))]
     for idx in cands:
-        h = dict(hist, calls=[hist["calls"][i] for i in idx])
+        calls = []
+        for i in idx:
+            c = dict(hist["calls"][i])
+            r = c.get("reuse_dc")
+            c["reuse_dc"] = idx.index(r) if r is not None and r in idx and idx.index(r) < len(calls) else None
+            calls.append(c)
+        h = dict(hist, calls=calls)
         try:
             if history_fails(h):
                 return h
